@@ -144,6 +144,12 @@ func (c *Content) WithFileInfoDefaults(umask fs.FileMode, mtime time.Time) *Cont
 	fileInfoAlreadyComplete := (!cc.FileInfo.MTime.IsZero() &&
 		cc.FileInfo.Mode != 0 &&
 		(cc.FileInfo.Size != 0 || (cc.Type == TypeDir || cc.Type == TypeImplicitDir)))
+	if cc.Type == TypeSymlink {
+		// the source of a symlink is the link's target on the system the
+		// package is installed on: whatever that path names on the build
+		// host says nothing about the entry
+		fileInfoAlreadyComplete = true
+	}
 
 	// only stat source when we actually need more information
 	if cc.Source != "" && !fileInfoAlreadyComplete {
